@@ -487,6 +487,29 @@ Theorem C04_filter_hpasses_inner_h : forall S Ht (f : list Z -> list Z),
 Proof. exact hpasses_inner_h. Qed.
 Print Assumptions C04_filter_hpasses_inner_h.
 
+(** doFilter's vertical passes ("for i := 0; i < width; i++ { off := base + i; ... p[off-4*bps] ..
+    p[off+3*bps] ... }", the 8 samples of a column read, then written back): at the macroblock edge
+    the block above and the current block of the buffer become the grid model's edge_v (stated there
+    through transposition); the inner passes (base + 4k*bps) turn the current block into inner_v. *)
+Theorem C04_filter_vpass_edge_v : forall S Ht (f : list Z -> list Z),
+  (forall l, length l = 8%nat -> length (f l) = 8%nat) ->
+  forall x0 ye (n : nat) c,
+  (4 <= n)%nat -> 0 <= x0 -> x0 + Z.of_nat n <= S -> Z.of_nat n <= ye -> ye + Z.of_nat n <= Ht ->
+  length c = Z.to_nat (S * Ht) ->
+  let c' := vpass S f x0 ye (Z.of_nat n) c in
+  (block_at S c' x0 (ye - Z.of_nat n) n, block_at S c' x0 ye n) =
+  edge_v n f (block_at S c x0 (ye - Z.of_nat n) n) (block_at S c x0 ye n).
+Proof. exact vpass_edge_v. Qed.
+Print Assumptions C04_filter_vpass_edge_v.
+
+Theorem C04_filter_vpasses_inner_v : forall S Ht (f : list Z -> list Z),
+  (forall l, length l = 8%nat -> length (f l) = 8%nat) ->
+  forall x0 y0 (n : nat), (0 < n)%nat -> 0 <= x0 -> x0 + Z.of_nat n <= S -> 0 <= y0 -> y0 + Z.of_nat n <= Ht ->
+  forall offs c, Forall (fun o => (o + 8 <= n)%nat) offs -> length c = Z.to_nat (S * Ht) ->
+  block_at S (vpasses S f x0 y0 n offs c) x0 y0 n = inner_v f offs (block_at S c x0 y0 n).
+Proof. exact vpasses_inner_v. Qed.
+Print Assumptions C04_filter_vpasses_inner_v.
+
 (** ** The encoder's token buffer (encode_token.go): record + replay = direct emission.  Tokens are
     recorded into pages of P entries (RecordToken adds a page when the current one is full), each
     non-skipped macroblock sets its start mark (MarkMBStart; skipped ones keep -1), and
